@@ -974,6 +974,10 @@ fn payload(class: &str, rng: &mut StdRng, salt: u64) -> Vec<u8> {
             v.extend(rand_bytes(rng, 40));
             v
         }
+        "bom_text" => {
+            let v = ["\u{feff}starts with a byte order mark", "\u{feff}", "\u{feff}\u{feff}two of them, and one at the end\u{feff}", "\u{feff}\n", "\u{feff}{\"json\": true}"];
+            v[(salt % v.len() as u64) as usize].as_bytes().to_vec()
+        }
         "text_edge" => {
             let v = [
                 "\u{feff}starts with a byte order mark",
